@@ -349,7 +349,7 @@ CFG = {
     "coq_dirs": ["C04"],
     "n": {"quick": 1500, "thorough": 100000},
     "shard": 100,
-    "max_report": 16,
+    "max_report": 6,
     "level": "proof",
     "stages": [stage],
     "candidates": candidates,
